@@ -237,7 +237,7 @@ def correspondence(ctx: Ctx, sigs):
 CORPUS = [("HandyModRTransform", dict(rmin=0.0, rmax=10.0, m=3), 0.0)]
 
 KIND_OF = {"inv_tf": "inverse(transform(x)) = x", "tf_inv": "transform(inverse(r)) = r", "d1": "deriv", "d2": "deriv2", "d3": "deriv3",
-           "id1": "deriv_inverse", "id2": "deriv2_inverse", "id3": "deriv3_inverse", "mono": "monotone", "ends": "end points"}
+           "id1": "deriv_inverse", "id2": "deriv2_inverse", "id3": "deriv3_inverse", "mono": "monotone", "ends": "end points", "reuse": "same-array reuse"}
 
 
 def property_checks(tf, cname, p, x, lo, hi):
@@ -332,6 +332,42 @@ def sweep(ctx: Ctx):
     for cname, p in ends_plan:
         for kind, obs, exp in endpoint_checks(cname, p):
             first.setdefault((cname, "ends"), (p, kind, obs, exp))
+    # no hidden state: refilling the SAME array object in place and calling again must give the values of a fresh array
+    # (history: fill, call every method, refill in place, call again on the same instance)
+    meths = ["transform", "inverse", "deriv", "deriv2", "deriv3", "deriv_inverse", "deriv2_inverse", "deriv3_inverse"]
+    for cname in CLASSES:
+        rr = __import__("random").Random(f"reuse:{cname}")
+        p, (lo, hi), _ = sample_params(cname, rr)
+        if cname == "HyperbolicRTransform":
+            hi = 0.05 / p["b"]
+        span = hi - lo
+        for wrap in (False, True):
+            tf = make_tf(cname, p, True)
+            obj = RT.InverseRTransform(tf) if wrap else tf
+            x1 = np.array([lo + span * f for f in (0.30, 0.45, 0.60)])
+            x2 = np.array([lo + span * f for f in (0.35, 0.50, 0.70)])
+            with warnings.catch_warnings():
+                warnings.simplefilter("ignore")
+                with np.errstate(all="ignore"):
+                    r1, r2 = tf.transform(x1.copy()), tf.transform(x2.copy())
+                    for m in meths:
+                        dom = m in ("transform", "deriv", "deriv2", "deriv3")
+                        if wrap:
+                            dom = not dom  # InverseRTransform swaps domain and codomain
+                        a, b_ = (x1, x2) if dom else (r1, r2)
+                        try:
+                            buf = a.copy()
+                            getattr(obj, m)(buf)
+                            buf[:] = b_
+                            got = np.asarray(getattr(obj, m)(buf), dtype=float)
+                            fresh = np.asarray(getattr(make_tf(cname, p, True) if not wrap else RT.InverseRTransform(make_tf(cname, p, True)), m)(b_.copy()), dtype=float)
+                        except Exception as e:  # noqa: BLE001
+                            first.setdefault((cname, "reuse"), (p, f"{'InverseRTransform.' if wrap else ''}{m}", type(e).__name__, "values of a fresh array"))
+                            continue
+                        npts += 1
+                        if not np.allclose(got, fresh, rtol=1e-12, atol=0, equal_nan=True):
+                            first.setdefault((cname, "reuse"), (p, f"{'InverseRTransform.' if wrap else ''}{m}: buffer refilled in place from {a.tolist()} to {b_.tolist()}",
+                                                                float(got[0]), float(fresh[0])))
     ctx.cov["sweep_points"] = npts
     return first
 
